@@ -835,6 +835,10 @@ func (p *Prog) mayBeNil(fn *ssa.Function, v ssa.Value, at ssa.Instruction, seen 
 		return p.mayBeNil(fn, x.X, at, seen)
 	case *ssa.ChangeType:
 		return p.mayBeNil(fn, x.X, at, seen)
+	case *ssa.UnOp:
+		if g, ok := x.X.(*ssa.Global); ok && x.Op == token.MUL && p.globalNonNil(g) {
+			return false
+		}
 	case *ssa.Call:
 		if a := nilPreservingArg(&x.Call); a != nil {
 			if !p.mayBeNil(fn, a, x, seen) {
@@ -948,3 +952,38 @@ var errCtors = map[string]bool{
 }
 
 func isErrCtor(c *ssa.CallCommon) bool { return errCtors[CalleeFullName(c)] }
+
+// globalNonNil: a package-level error variable that is initialised once with a non-nil value and
+// never reassigned (tree packages: verified from the stores; other packages: sentinel errors such
+// as io.EOF / context.Canceled are assumed non-nil).
+func (p *Prog) globalNonNil(g *ssa.Global) bool {
+	if g.Pkg == nil || !p.inTree(g.Pkg.Pkg) {
+		return true
+	}
+	if v, ok := p.globalNN[g]; ok {
+		return v
+	}
+	if p.globalNN == nil {
+		p.globalNN = map[*ssa.Global]bool{}
+	}
+	n, good := 0, true
+	scan := func(fn *ssa.Function) {
+		for _, in := range allInstrs(fn) {
+			if st, ok := in.(*ssa.Store); ok && st.Addr == g {
+				n++
+				if fn.Name() != "init" || p.mayBeNil(fn, st.Val, st, map[ssa.Value]bool{}) {
+					good = false
+				}
+			}
+		}
+	}
+	for _, fn := range p.Funcs {
+		scan(fn)
+	}
+	if init := g.Pkg.Func("init"); init != nil {
+		scan(init)
+	}
+	res := good && n == 1
+	p.globalNN[g] = res
+	return res
+}
